@@ -1103,6 +1103,21 @@ class SR:
         k = sym_floor(-self)
         return SR(F(-k))
 
+    def rint(self):
+        """numpy.rint: round to nearest, ties to even (forks on the integer part)"""
+        k = sym_floor(self + F(1, 2))
+        if k % 2 and bool(self + F(1, 2) == k):     # exact tie and the upper neighbour is odd
+            k -= 1
+        return SR(F(k))
+
+    def round(self, decimals=0):
+        if decimals != 0:
+            raise Abort("unsupported", "round to decimals of a symbolic value")
+        return self.rint()
+
+    def trunc(self):
+        return SR(F(sym_int(self)))
+
     def arctan2(self, other):
         return arctan2(self, other)
 
